@@ -297,6 +297,220 @@ def rule_fields(chk, db, cfgname, tab, rid):
     chk.count(rid.lower() + '.written_fields', n)
 
 
+def rule_backside(chk, db, cfgname, rid):
+    chk.rule(rid, 'the orientation flag Relation::backSide composes by XOR: every assignment to it is ^= / a != b / '
+             'a ^ b or a copy of another relation\'s flag, never a constant (a run subtracted twice must flip back)')
+    n = 0
+    for f in db.functions.values():
+        for b in f.get('blocks', []):
+            for ev in b['ev']:
+                if ev.get('k') != 'bin' or ev.get('op') not in ('=', '^=', '|=', '&='):
+                    continue
+                l = T.strip(ev['l'])
+                if not (l.get('k') == 'mem' and l['n'] == 'backSide' and 'Relation' in (l.get('cls') or '')):
+                    continue
+                n += 1
+                r = T.strip(ev['r'])
+                ok = ev['op'] == '^=' or (ev['op'] == '=' and (
+                    (r.get('k') == 'bin' and r['op'] in ('^', '!=')) or
+                    (r.get('k') == 'mem' and r['n'] == 'backSide')))
+                chk.obligation(ok, {'function': f['name'], 'line': ev.get('ln'),
+                                    'write': 'backSide %s %s' % (ev['op'], T.pstr(r)[:40])})
+                if not ok:
+                    chk.violation(rid, f, 'backSide %s %s' % (ev['op'], T.pstr(r)[:30]),
+                                  'the back-side flag is overwritten instead of toggled: A - (B - C) leaves C\'s '
+                                  'faces flagged back-side although they face the same way as their source',
+                                  line=ev.get('ln'), cfg=cfgname)
+    if n < 1:
+        raise AnalysisBroken('%s: no write to Relation::backSide found' % rid)
+    chk.count(rid.lower() + '.writes', n)
+
+
+def rule_offsets(chk, db, cfgname, rid):
+    chk.rule(rid, 'in Compose the mesh-ID block of node i is i * snapshot: the multiplier of the counter snapshot is '
+             'the very variable that indexes nodes[...], so distinct nodes get distinct ID blocks')
+    f = db.one('manifold::CsgLeafNode::Compose')
+    fam = family(db, f)
+    snap = set()
+    for ff in fam:
+        for b in ff['blocks']:
+            for ev in b['ev']:
+                if ev.get('k') == 'decl':
+                    for v in ev['vars']:
+                        if v.get('init') is not None and 'meshIDCounter_' in T.pstr(v['init']):
+                            snap.add(v['n'])
+    if not snap:
+        raise AnalysisBroken('%s: counter snapshot not found in Compose' % rid)
+    n = 0
+    for ff in fam:
+        idxvars = set()
+        for b in ff['blocks']:
+            for ev in b['ev']:
+                for x in T.walk(ev):
+                    if x.get('k') == 'call' and x.get('op') == '[]' and x.get('recv') is not None and \
+                            T.strip(x['recv']).get('n') == 'nodes' and x.get('args'):
+                        a = T.strip(x['args'][0])
+                        if a.get('k') == 'var':
+                            idxvars.add(a['n'])
+        for b in ff['blocks']:
+            for ev in b['ev']:
+                if ev.get('k') != 'decl':
+                    continue
+                for v in ev['vars']:
+                    init = v.get('init')
+                    if init is None or not any(x.get('k') == 'var' and x['n'] in snap for x in T.walk(init)):
+                        continue
+                    if v['n'] in snap:
+                        continue
+                    n += 1
+                    e = T.strip(init)
+                    ok = e.get('k') == 'bin' and e['op'] == '*' and any(
+                        T.strip(side).get('k') == 'var' and T.strip(side)['n'] in idxvars
+                        for side in (e['l'], e['r']))
+                    chk.obligation(ok, {'function': ff['name'], 'line': ev.get('ln'), 'offset': T.pstr(init)[:60],
+                                        'multiplier is the node index': ok})
+                    if not ok:
+                        chk.violation(rid, f, 'offset = %s' % T.pstr(init)[:50],
+                                      'the ID block of a composed node is not its own index times the snapshot: '
+                                      'two nodes can receive the same meshIDs and share one run/transform',
+                                      line=ev.get('ln'), cfg=cfgname)
+    if n < 2:
+        raise AnalysisBroken('%s: offset computations not found in Compose (%d)' % (rid, n))
+    chk.count(rid.lower() + '.offsets', n)
+
+
+def rule_emission(chk, db, cfgname, rid):
+    chk.rule(rid, 'the exporter emits its optional run tables under structural conditions only: every push_back into '
+             'an out.run* array in addRun is controlled by nothing but the original/non-original flag, so tables the '
+             'importer honours together (runFlags with runTransform) are present together')
+    n = 0
+    for root in exporters(db):
+        fam = family(db, root)
+        # variables that depend only on originalID
+        structural = set()
+        changed = True
+        while changed:
+            changed = False
+            for ff in fam:
+                for b in ff['blocks']:
+                    for ev in b['ev']:
+                        if ev.get('k') == 'decl':
+                            for v in ev['vars']:
+                                if v['n'] in structural or v.get('init') is None:
+                                    continue
+                                vs = [x for x in T.walk(v['init']) if x.get('k') in ('var', 'mem')]
+                                names = {x['n'] for x in vs}
+                                if names and names <= (structural | {'originalID', 'meshRelation_', 'impl'}) and \
+                                        'originalID' in (names | structural_sources(v['init'], structural)):
+                                    structural.add(v['n'])
+                                    changed = True
+        for ff in fam:
+            if ff is root:
+                continue
+            g = C.Cfg(ff)
+            dom = g.dominators()
+            for b in ff['blocks']:
+                for ev in b['ev']:
+                    if ev.get('k') == 'call' and T.short(ev.get('fn', '')) == 'push_back' and \
+                            ev.get('recv') is not None and T.strip(ev['recv']).get('n', '').startswith('run'):
+                        n += 1
+                        bad = []
+                        for d in dom.get(b['id'], ()):
+                            if d == b['id']:
+                                continue
+                            cond, kind = C.branch_cond(g.blocks[d])
+                            if cond is None or g.blocks[d]['term']['c'] in ('CXXForRangeStmt', 'ForStmt'):
+                                continue
+                            ss = g.real_succ(d)
+                            if len(ss) == 2 and all(_reaches(g, x, b['id'], d) for x in ss):
+                                continue
+                            for x in T.walk(cond):
+                                if x.get('k') == 'var' and x['n'] not in structural and x.get('s') != 'g':
+                                    bad.append(x['n'])
+                        ok = not bad
+                        chk.obligation(ok, {'function': ff['name'], 'line': ev.get('ln'),
+                                            'array': T.strip(ev['recv'])['n'], 'controlled by': sorted(set(bad)) or
+                                            'structural flags only'})
+                        if not ok:
+                            chk.violation(rid, root, 'out.%s emitted under %s' % (T.strip(ev['recv'])['n'],
+                                                                                  ','.join(sorted(set(bad)))),
+                                          'a run table is written only when a data-dependent condition (%s) holds: the '
+                                          'importer ignores runFlags\' back-side bit when runTransform is absent, so '
+                                          'the information is lost on re-import' % ','.join(sorted(set(bad))),
+                                          line=ev.get('ln'), file=ff['file'], cfg=cfgname)
+    if n < 4:
+        raise AnalysisBroken('%s: run-table push_backs not found (%d)' % (rid, n))
+    chk.count(rid.lower() + '.emissions', n)
+
+
+def structural_sources(e, structural):
+    out = set()
+    for x in T.walk(e):
+        if x.get('k') == 'mem' and x['n'] == 'originalID':
+            out.add('originalID')
+        if x.get('k') == 'var' and x['n'] in structural:
+            out.add('originalID')
+    return out
+
+
+def _reaches(g, src, target, avoid):
+    seen = set()
+    st = [src]
+    while st:
+        x = st.pop()
+        if x == target:
+            return True
+        if x in seen or x == avoid or x is None or x < 0:
+            continue
+        seen.add(x)
+        st.extend(g.real_succ(x))
+    return False
+
+
+def rule_run_domain(chk, db, cfgname, rid):
+    chk.rule(rid, 'the importer accepts every run table the exporter can produce: run boundaries may repeat (a run '
+             'with no triangles), so the importer\'s monotonicity rejection is strict (>), never >= / greater_equal')
+    importers = [f for f in db.fn('manifold::Manifold::Impl::Impl')
+                 if any(db.T(f, p['t']).get('r') == 'manifold::MeshGLP' for p in f['params'])]
+    n = 0
+    for f in importers:
+        for ff in family(db, f):
+            for b in ff['blocks']:
+                t = b.get('term')
+                conds = [t['cond']] if t and 'cond' in t else []
+                for ev in b['ev']:
+                    if ev.get('k') == 'call' and T.short(ev.get('fn', '')) in ('adjacent_find', 'is_sorted',
+                                                                               'is_sorted_until'):
+                        conds.append(ev)
+                for c in conds:
+                    for x in T.walk(c):
+                        if x.get('k') == 'bin' and x['op'] in ('>', '>=', '<', '<=') and \
+                                'runIndex' in T.pstr(x['l']) and 'runIndex' in T.pstr(x['r']):
+                            n += 1
+                            ok = x['op'] in ('>', '<')
+                            chk.obligation(ok, {'function': ff['name'], 'line': x.get('ln'),
+                                                'comparison': T.pstr(x)[:60]})
+                            if not ok:
+                                chk.violation(rid, f, 'run boundaries compared with %s' % x['op'],
+                                              'equal consecutive runIndex entries (a run that contributed no '
+                                              'triangles, which the exporter emits) are rejected', line=x.get('ln'),
+                                              cfg=cfgname)
+                        if x.get('k') == 'call' and T.short(x.get('fn', '')) in ('adjacent_find', 'is_sorted') and \
+                                'runIndex' in T.pstr(x):
+                            n += 1
+                            s0 = json.dumps(x)
+                            ok = 'greater_equal' not in s0 and 'less_equal' not in s0
+                            chk.obligation(ok, {'function': ff['name'], 'line': x.get('ln'),
+                                                'algorithm': T.short(x['fn'])})
+                            if not ok:
+                                chk.violation(rid, f, 'run boundaries checked with *_equal functor',
+                                              'equal consecutive runIndex entries are rejected', line=x.get('ln'),
+                                              cfg=cfgname)
+    if n < 2:
+        raise AnalysisBroken('%s: no monotonicity check of runIndex found in the importer' % rid)
+    chk.count(rid.lower() + '.comparisons', n)
+
+
 def main(chk, tier):
     import db as D
     import c06
@@ -311,6 +525,8 @@ def main(chk, tier):
         rule_groups(chk, db, cfgname, tab, 'C07.1b')
         c06.rule_r2(chk, db, cfgname, {}, rid='C07.2')
         rule_runs(chk, db, cfgname, 'C07.3')
+        rule_backside(chk, db, cfgname, 'C07.4')
+        rule_offsets(chk, db, cfgname, 'C07.5')
     n = len(configs)
     chk.floor('c07.1.attribute_flows', 4 * n)
     chk.floor('c07.1b.group_members', 12 * n)
